@@ -17,7 +17,7 @@
 #endif
 #define VF_NPCALL (2 * NC + 1)
 #define VF_PLEN 3
-#define VF_INPUTS(X) X(unsigned, off, ) X(unsigned char, depth, ) X(unsigned char, fmt, ) X(unsigned char, key, [NC + 1][TS + 1]) X(unsigned char, pre, [N]) \
+#define VF_INPUTS(X) X(unsigned, off, ) X(unsigned char, depth, ) X(int, fmt, ) X(unsigned char, key, [NC + 1][TS + 1]) X(unsigned char, pre, [N]) \
     X(unsigned char, pp_ok, [VF_NPCALL]) X(unsigned char, pp_len, [VF_NPCALL]) X(unsigned char, pp_adv, [VF_NPCALL]) X(unsigned char, pp_txt, [VF_NPCALL][VF_PLEN]) \
     X(unsigned char, g_text, [2][26]) X(double, g_val, ) X(double, strtod_val, ) X(unsigned char, dp, )
 #include "vf.h"
@@ -37,7 +37,7 @@ int main(VF_MAIN_ARGS)
     cJSON parent, kid[NC + 1]; printbuffer p; unsigned char *buf; unsigned char ref[96]; size_t o = 0, k, d, off, depth; int fmt, allok = 1; cJSON_bool ok; unsigned c; unsigned vidx[NC + 1];
     VF_INIT(); VF_LIBC_ASSUME();
     VF_ASSUME(IN.off <= N); VF_ASSUME(IN.depth < 3);
-    off = IN.off; depth = IN.depth; fmt = IN.fmt & 1;
+    off = IN.off; depth = IN.depth; fmt = IN.fmt != 0;
     memset(&parent, 0, sizeof parent); memset(kid, 0, sizeof kid);
     parent.type = WHAT ? cJSON_Object : cJSON_Array;
     for (c = 0; c < NC; c++) {
@@ -47,7 +47,7 @@ int main(VF_MAIN_ARGS)
     if (NC > 0) { parent.child = &kid[0]; kid[0].prev = &kid[NC - 1]; }
     buf = (unsigned char *)vf_exact(IN.pre, N);
     memset(&p, 0, sizeof p);
-    p.buffer = buf; p.length = N; p.offset = off; p.noalloc = 1; p.format = fmt; p.depth = depth;
+    p.buffer = buf; p.length = N; p.offset = off; p.noalloc = 1; p.format = IN.fmt; p.depth = depth;     /* cJSON_bool is an int: every non-zero value means formatted */
 
     ok = WHAT ? print_object(&parent, &p) : print_array(&parent, &p);
 
